@@ -55,3 +55,140 @@ def default_dir_simple(d):
         with open(src) as f, open(os.path.join(d, dst), "w") as g:
             g.write(f.read())
     return d
+
+
+CA_CNF = """
+[ ca ]
+default_ca = CA_default
+[ CA_default ]
+dir = %(dir)s
+database = %(dir)s/index.txt
+new_certs_dir = %(dir)s/newcerts
+serial = %(dir)s/serial
+crlnumber = %(dir)s/crlnumber
+default_md = sha256
+policy = policy_any
+default_days = 365
+default_crl_days = 3650
+unique_subject = no
+copy_extensions = copy
+[ policy_any ]
+commonName = supplied
+[ v3_leaf ]
+basicConstraints = CA:FALSE
+subjectKeyIdentifier = hash
+authorityKeyIdentifier = keyid
+[ v3_ca ]
+basicConstraints = critical,CA:TRUE
+keyUsage = critical,keyCertSign,cRLSign
+subjectKeyIdentifier = hash
+"""
+
+
+class Ca:
+    """a CA driven through `openssl ca` so that certificates can be dated and revoked"""
+
+    def __init__(self, d, name, parent=None):
+        self.name = name
+        self.dir = os.path.join(d, "ca-" + name)
+        os.makedirs(os.path.join(self.dir, "newcerts"), exist_ok=True)
+        open(os.path.join(self.dir, "index.txt"), "w").close()
+        with open(os.path.join(self.dir, "serial"), "w") as f:
+            f.write("1000\n")
+        with open(os.path.join(self.dir, "crlnumber"), "w") as f:
+            f.write("01\n")
+        self.cnf = os.path.join(self.dir, "ca.cnf")
+        with open(self.cnf, "w") as f:
+            f.write(CA_CNF % {"dir": self.dir})
+        self.key = os.path.join(d, name + "-key.pem")
+        self.crt = os.path.join(d, name + ".pem")
+        if parent is None:
+            sh(["openssl", "req", "-x509", "-newkey", "ec", "-pkeyopt", "ec_paramgen_curve:prime256v1", "-nodes", "-keyout", self.key,
+                "-out", self.crt, "-days", "3650", "-subj", "/CN=verif-%s" % name, "-addext", "basicConstraints=critical,CA:TRUE",
+                "-addext", "keyUsage=critical,keyCertSign,cRLSign", "-addext", "subjectKeyIdentifier=hash"])
+        else:
+            csr = os.path.join(d, name + ".csr")
+            sh(["openssl", "req", "-newkey", "ec", "-pkeyopt", "ec_paramgen_curve:prime256v1", "-nodes", "-keyout", self.key, "-out", csr,
+                "-subj", "/CN=verif-%s" % name])
+            parent.sign(csr, self.crt, ext="v3_ca", days=3000)
+        self.d = d
+
+    def sign(self, csr, out, ext="v3_leaf", days=365, start=None, end=None):
+        cmd = ["openssl", "ca", "-batch", "-config", self.cnf, "-cert", self.crt, "-keyfile", self.key, "-in", csr, "-out", out,
+               "-extensions", ext, "-notext"]
+        if start:
+            cmd += ["-startdate", start]
+        if end:
+            cmd += ["-enddate", end]
+        else:
+            cmd += ["-days", str(days)]
+        sh(cmd)
+
+    def leaf(self, name, sans=("DNS:localhost",), eku=None, start=None, end=None):
+        key = os.path.join(self.d, name + "-key.pem")
+        csr = os.path.join(self.d, name + ".csr")
+        crt = os.path.join(self.d, name + ".pem")
+        cmd = ["openssl", "req", "-newkey", "ec", "-pkeyopt", "ec_paramgen_curve:prime256v1", "-nodes", "-keyout", key, "-out", csr,
+               "-subj", "/CN=%s" % name]
+        if sans:
+            cmd += ["-addext", "subjectAltName=%s" % ",".join(sans)]
+        if eku:
+            cmd += ["-addext", "extendedKeyUsage=%s" % eku]
+        sh(cmd)
+        self.sign(csr, crt, start=start, end=end)
+        return crt, key
+
+    def revoke(self, crt):
+        sh(["openssl", "ca", "-config", self.cnf, "-cert", self.crt, "-keyfile", self.key, "-revoke", crt])
+
+    def crl(self, out):
+        sh(["openssl", "ca", "-config", self.cnf, "-cert", self.crt, "-keyfile", self.key, "-gencrl", "-out", out])
+        return out
+
+
+def cat(out, *files):
+    with open(out, "w") as g:
+        for f in files:
+            g.write(open(f).read())
+    return out
+
+
+def make_pki(d):
+    """The fixture of the TLS checks.  Files <name>.pem / <name>-key.pem in d:
+    CAs rootA, rootB, interA (by rootA), interX (by rootA, then revoked);
+    leaves a1 a2 (rootA), b1 (rootB), viaInter (interA; viaInter-chain.pem = leaf+interA), viaRevokedInter (interX),
+    expired, future, revoked (rootA), wrongname, clientOnly (EKU clientAuth), serverOnly (EKU serverAuth);
+    CRLs crlA.pem (revoked, interX), crlA-empty.pem (made before the revocations), crlB.pem, crlInter.pem."""
+    os.makedirs(d, exist_ok=True)
+    if os.path.exists(os.path.join(d, ".done")):
+        return d
+    ra = Ca(d, "rootA")
+    rb = Ca(d, "rootB")
+    ia = Ca(d, "interA", parent=ra)
+    ix = Ca(d, "interX", parent=ra)
+    for n in ("a1", "a2"):
+        ra.leaf(n, sans=("DNS:%s.verif" % n, "DNS:localhost"))
+    rb.leaf("b1", sans=("DNS:b1.verif", "DNS:localhost"))
+    crt, _ = ia.leaf("viaInter", sans=("DNS:viainter.verif", "DNS:localhost"))
+    cat(os.path.join(d, "viaInter-chain.pem"), crt, ia.crt)
+    crt, _ = ix.leaf("viaRevokedInter", sans=("DNS:viarevokedinter.verif", "DNS:localhost"))
+    cat(os.path.join(d, "viaRevokedInter-chain.pem"), crt, ix.crt)
+    ra.leaf("expired", start="20200101000000Z", end="20210101000000Z")
+    ra.leaf("future", start="20400101000000Z", end="20410101000000Z")
+    ra.leaf("wrongname", sans=("DNS:somebody.else",))
+    ra.leaf("clientOnly", eku="clientAuth")
+    ra.leaf("serverOnly", eku="serverAuth")
+    ra.crl(os.path.join(d, "crlA-empty.pem"))
+    rcrt, _ = ra.leaf("revoked")
+    ra.revoke(rcrt)
+    ra.revoke(ix.crt)
+    ra.crl(os.path.join(d, "crlA.pem"))
+    rb.crl(os.path.join(d, "crlB.pem"))
+    ia.crl(os.path.join(d, "crlInter.pem"))
+    ix.crl(os.path.join(d, "crlInterX.pem"))
+    with open(os.path.join(d, "garbage.pem"), "w") as f:
+        f.write("-----BEGIN CERTIFICATE-----\nbm90IGEgY2VydGlmaWNhdGU=\n-----END CERTIFICATE-----\n")
+    with open(os.path.join(d, "empty.pem"), "w") as f:
+        f.write("\n")
+    open(os.path.join(d, ".done"), "w").close()
+    return d
